@@ -121,4 +121,13 @@ example : runHistory [("src.tif", 1), ("out.tif", 9)]
     [⟨"out.tif", some "out_PARAM.tif", false, 5, 6⟩, ⟨"out.tif", some "out_PARAM.tif", true, 5, 6⟩] =
     ([("out_PARAM.tif", 6), ("out.tif", 5), ("src.tif", 1)], [.fileExists, .ok]) := by decide
 
+/-- **Witness (finding D44)**: the refusal is atomic per `process()` call (`no_overwrite_no_change`), not per command line - the
+    `fuse` command calls `process()` once per source, so an invocation over two sources of which the *second* one's output exists
+    creates the first one's outputs and only then fails: the file system after the refused invocation is not the one before it. -/
+theorem multi_source_invocation_not_atomic :
+    let fs : FS := [("b_FUSE.tif", 7)]
+    let calls : List Call := [⟨"a_FUSE.tif", none, false, 1, 0⟩, ⟨"b_FUSE.tif", none, false, 2, 0⟩]
+    (runHistory fs calls).2 = [.ok, .fileExists] ∧ (runHistory fs calls).1 ≠ fs ∧ (runHistory fs calls).1.get "b_FUSE.tif" = some 7 := by
+  decide
+
 end Homonim
